@@ -74,6 +74,10 @@ def scenarios(tier, seed=0):
         for end in ("2003/01/01", "2003/04/30", "2003/05/01", "2003/05/02", "2003/06/15"):
             for ext in ((30, 365) if q else (1, 30, 365, 730)):
                 yield {"kind": "extend", "name": name, "ext": ext, "end": end}
+    # very long extensions (46 further years; the shorter run is under, the longer over 2^14 days): anything sized or typed by the length
+    # of the window
+    for name in (["Maize"] if q else ["Maize", "Wheat", "PotatoGDD"]):
+        yield {"kind": "extend", "name": name, "ext": 16800}
     # a CO2 record that is not annual over the simulated years (as the bundled record after 2010, or a user table): the concentration of a
     # completed season must not depend on how far the run goes on (two completed seasons, extension across a table node)
     for name in (["Wheat", "Soybean", "Potato", "Cotton"] if q else [n for n in allnames if not n.endswith("GDD")][::2]):
